@@ -142,16 +142,11 @@ class CountingBloomFilter(BloomFilter):
         # NOTE: this will increment indices each time it is viewed. Not sure if that is "correct"
         #       if not then we will need to update this and the C version
         indices = [hashes[i] % self._bloom_length for i in range(self._number_hashes)]
-        vals = [self._bloom[k] + num_els for k in indices]
-        for i, v in enumerate(vals):
-            k = indices[i]
-            if v > UINT32_T_MAX:
-                self._bloom[k] = UINT32_T_MAX
-                vals[i] = UINT32_T_MAX
-            else:
-                self._bloom[k] += num_els  # This keeps the original methodology
+        for k in indices:
+            # indices may coincide, so clamp against the live cell; This keeps the original methodology
+            self._bloom[k] = min(self._bloom[k] + num_els, UINT32_T_MAX)
         self.elements_added = min(self.elements_added + num_els, UINT64_T_MAX)
-        return min(vals)
+        return min(self._bloom[k] for k in indices)
 
     def check(self, key: KeyT) -> int:  # type: ignore
         """Check if the key is likely in the Counting Bloom Filter
